@@ -99,6 +99,19 @@ Definition mapM {A B} (f : A -> res B) : list A -> res (list B) :=
               | a :: r => do b <- f a; do bs <- go r; Ok (b :: bs)
               end.
 
+(* the members of the JSON object of a struct key against the declared fields, in order *)
+Definition dec_kfields {K} (d : ty -> K -> res val)
+  : list (string * K) -> list (string * ty) -> res (list (string * val)) :=
+  fix go l ds :=
+    match l, ds with
+    | [], [] => Ok []
+    | (f, j) :: l', (g, ft) :: ds' =>
+        if String.eqb f g
+        then do v <- d ft j; do r <- go l' ds'; Ok ((f, v) :: r)
+        else Err 3%N
+    | _, _ => Err 3%N
+    end.
+
 Section Ser.
   Variables J JK : Type.                       (* JSON text of a basic value / of a map key *)
   Variable jenc : base -> lit -> res J.        (* json.Marshal on a value of basic kind *)
@@ -109,6 +122,14 @@ Section Ser.
   Variable reg : registry.
   Variable env : senv.
 
+  (* the plain JSON of a map key (sonic.MarshalString of the key value): the text of a value
+     of basic kind, a JSON array for an array key, a JSON object with the fields in
+     declaration order for a struct key *)
+  Inductive kjson : Type :=
+  | KLeaf (j : JK)
+  | KArr (l : list kjson)
+  | KObj (l : list (string * kjson)).
+
   (* internalStruct.  The Go record discriminates on which name field is non-empty
      (Type, StructType, MapKeyType, else slice); with non-empty registry names that is
      exactly this sum.  [INull]: Type = key, JSONValue = null. *)
@@ -117,7 +138,7 @@ Section Ser.
   | IBasic (pn : nat) (key : string) (j : J)
   | IStruct (pn : nat) (key : string) (fields : list (string * option istruct))
   | IMap (pn kpn : nat) (kname : string) (vpn : nat) (vname : string)
-         (entries : list (JK * option istruct)) (ct : option string)     (* ContainerType *)
+         (entries : list (kjson * option istruct)) (ct : option string)  (* ContainerType *)
   | ISlice (pn epn : nat) (ename : string) (elems : list (option istruct))
            (arr : bool) (ct : option string).                            (* IsArray, ContainerType *)
 
@@ -137,11 +158,13 @@ Section Ser.
   Definition elem_key (t : ty) : res (nat * string) :=
     do k <- lookup_name (snd (strip_ptr t)); Ok (fst (strip_ptr t), k).
 
-  Definition enc_key (k : val) : res JK :=
+  Fixpoint enc_key (k : val) : res kjson :=
     match k with
-    | VBase b l => kenc b l
-    | VNamed _ b l => kenc b l
-    | _ => Err E_UNMODELLED
+    | VBase b l => do j <- kenc b l; Ok (KLeaf j)
+    | VNamed _ b l => do j <- kenc b l; Ok (KLeaf j)
+    | VArray _ es => do l <- mapM enc_key es; Ok (KArr l)
+    | VStruct _ fs => do l <- mapM (fun fv => do j <- enc_key (snd fv); Ok (fst fv, j)) fs; Ok (KObj l)
+    | _ => Err E_UNMODELLED          (* interface / pointer keys: finding F-C12j, outside the universe *)
     end.
 
   Definition opt_list {A} (o : option (list A)) : list A :=
@@ -235,11 +258,25 @@ Section Ser.
   Definition lookup_ty (k : string) : res ty :=
     match m_lookup reg k with Some t => Ok t | None => Err E_UNKNOWN_TYPE end.
 
-  Definition dec_key (kt : ty) (jk : JK) : res val :=
-    match kt with
-    | TBase b => do l <- kdec b jk; Ok (VBase b l)
-    | TNamed n b => do l <- kdec b jk; Ok (VNamed n b l)
-    | _ => Err E_UNMODELLED
+  (* sonic.UnmarshalString into a new value of the key type.  An array text of another
+     length and an object whose members are not the declared fields in declaration order are
+     errors here: the encoder never writes such texts (sonic itself would fill / skip). *)
+  Fixpoint dec_key (kt : ty) (kj : kjson) {struct kj} : res val :=
+    match kt, kj with
+    | TBase b, KLeaf j => do l <- kdec b j; Ok (VBase b l)
+    | TNamed n b, KLeaf j => do l <- kdec b j; Ok (VNamed n b l)
+    | TArray n t, KArr l =>
+        if Nat.eqb (List.length l) n
+        then do es <- mapM (dec_key t) l; Ok (VArray t es)
+        else Err E_JSON
+    | TStruct n, KObj l =>
+        match struct_fields env n with
+        | None => Err E_NOSTRUCT
+        | Some ds =>
+            do fs <- dec_kfields (fun ft j => dec_key ft j) l ds;      (* a mismatch: E_FIELD *)
+            Ok (VStruct n fs)
+        end
+    | _, _ => Err E_UNMODELLED
     end.
 
   Fixpoint has_name (f : string) (ds : list (string * ty)) : bool :=
@@ -332,6 +369,9 @@ Section Ser.
     end.
 End Ser.
 
+Arguments KLeaf {JK} j.
+Arguments KArr {JK} l.
+Arguments KObj {JK} l.
 Arguments INull {J JK} pn nn key.
 Arguments IBasic {J JK} pn key j.
 Arguments IStruct {J JK} pn key fields.
